@@ -232,7 +232,14 @@ fn ordered_mock(recs: &[Rec], rng: &mut Rng, partial: bool) -> (Unimock, usize) 
                         c.push(qr);
                         break;
                     }
-                    q = qr.then().answers_arc(write_answer(stages[k + 1].0.clone()));
+                    // sometimes a stage that is repeated zero times sits in between (a parameterised script at its
+                    // boundary value): it answers nothing, the next stage starts right away
+                    if rng.chance(1, 4) {
+                        let bogus = write_answer(Rec::Write(Err(io::ErrorKind::AddrInUse)));
+                        q = qr.then().answers_arc(bogus).n_times(0).then().answers_arc(write_answer(stages[k + 1].0.clone()));
+                    } else {
+                        q = qr.then().answers_arc(write_answer(stages[k + 1].0.clone()));
+                    }
                 }
             }
             Rec::Flush(_) => {
